@@ -268,3 +268,18 @@ M("C06", "single scores skip preprocessor", BS, "        return self.preprocesso
 M("C06", "preprocessor inverse skips sanitizer", "xeofs/preprocessing/preprocessor.py", "        X_it = X.copy()\n        for transformer in self.get_transformers(inverse=True):\n            X_it = transformer.inverse_transform_components(X_it)", "        X_it = X.copy()\n        for transformer in self.get_transformers(inverse=True)[2:]:\n            X_it = transformer.inverse_transform_components(X_it)", "REINSERT.reach", accept_error=True)
 B("C06", "mask comparison via != ", SA, "            if not X_valid_features.equals(self.is_valid_feature):", "            same = X_valid_features.equals(self.is_valid_feature)\n            if not same:")
 B("C06", "rename masks", SA, "X_valid_features_per_sample", "n_valid_per_sample", count=4)
+
+# ---------------------------------------------------------------- C04
+CRT = "xeofs/cross/cpcca_rotator.py"
+M("C04", "rotator projects on un-whitened patterns", CRT, "            X = self.preprocessor1.transform(X)\n            X = self.pca1.transform(X)\n            X = self.whitener1.transform(X)\n", "            comps1 = self.whitener1.inverse_transform_components(comps1)\n            comps1 = self.pca1.inverse_transform_components(comps1)\n            X = self.preprocessor1.transform(X)\n", "SPACE.project.kind")
+M("C04", "rotator skips whitening of data", CRT, "            Y = self.pca2.transform(Y)\n            Y = self.whitener2.transform(Y)\n", "            Y = self.pca2.transform(Y)\n", "SPACE.project.basis")
+M("C04", "rotator stores physical-space vectors", CRT, "        Qx_rot = self.whitener1.transform_components(Qx_rot)\n", "", "SPACE.stored")
+M("C04", "rotator transform without modes_sign", ER, '        projections = projections * self.data["modes_sign"]\n', "", "AGREE.factor")
+M("C04", "rotator transform without / svals", ER, "        projections = xr.dot(X, components) / svals", "        projections = xr.dot(X, components)", "AGREE.factor")
+M("C04", "rotator transform multiplies svals", ER, "        projections = xr.dot(X, components) / svals", "        projections = xr.dot(X, components) * svals", "AGREE.factor")
+M("C04", "cross rotator transform without norm", CRT, '            if not normalized:\n                projections1 = projections1 * self.data["norm1"]\n', "", "AGREE.factor")
+M("C04", "cross rotator transform without scaling", CRT, "            projections2 = xr.dot(Y, comps2) / scaling", "            projections2 = xr.dot(Y, comps2)", "AGREE.factor")
+M("C04", "accumulator rebound", "xeofs/multi/cca.py", "            view_preprocessed.append(self.preprocessors[i].transform(view))", "            view_preprocessed = self.preprocessors[i].transform(view)", "ACC")
+M("C04", "accumulator rebound in list processor", "xeofs/preprocessing/list_processor.py", "            X_transformed.append(proc.transform(x))  #  type: ignore", "            X_transformed = proc.transform(x)  #  type: ignore", "ACC")
+B("C04", "pseudo norms local renamed", ER, "        pseudo_norms = self.data[\"norms\"]", "        pn = self.data[\"norms\"]\n        pseudo_norms = pn")
+B("C04", "scaling inlined", CRT, "            projections1 = xr.dot(X, comps1) / scaling", "            unrot = xr.dot(X, comps1)\n            projections1 = unrot / scaling")
